@@ -2,7 +2,7 @@
 
 Q, T = "quick", "thorough"
 
-HOOK_COMMITS = ["c346870"]
+HOOK_COMMITS = ["c346870", "7f5b3c8"]
 NOT_APPLICABLE = {}
 
 ENGINE_ASSUME = [
@@ -331,6 +331,24 @@ PROPS = {
             {"name": "grammar", "test": "TestGrammar", "checks": {Q: 12000, T: 240000}, "shards": {Q: 16, T: 16}, "timeout": {Q: 500, T: 3000}, "shrinktime": "40s"},
             {"name": "nativefuzz", "kind": "script", "script": "fuzz_c15.py", "skip": {Q: True, T: False}, "shards": {Q: 1, T: 1},
              "timeout": {Q: 900, T: 1500}, "env": {"VERIF_FUZZTIME": {Q: 20, T: 75}}},
+        ],
+    },
+    "C18": {
+        "pkg": "c18", "bin": True,
+        "technique": "rapid valid configurations with exactly one injected broken reference and their unbroken twins, decided at the "
+                     "binary level (metamorphic: break => rejected, repair => accepted and runnable)",
+        "level_text": "Valid configurations (1..3 tasks, 1..4 pipelines with DAG dependencies, acyclic pipeline inclusion, optional "
+                      "watcher, YAML/JSON/TOML) get exactly one break out of {stage->unknown task, stage->unknown pipeline, depends_on->"
+                      "unknown stage, depends_on->stage of another pipeline, self-dependency, watcher->unknown task, duplicate stage "
+                      "name, pipeline inclusion cycle of length 1..3} at a drawn position: `list` must exit non-zero with a message and "
+                      "`validate` must not say 'file is valid', without crashing. Unbroken configurations must be accepted and every "
+                      "pipeline must run to exit 0 within 10 s (40 s on the retry) without a fatal log line.",
+        "level_note": "Commands of the generated tasks are `true`; what the pipelines do is not the subject here.",
+        "rule": "rapid cases; every case is non-trivial; distinct = (break kind, position class, canonical JSON). Classes: break kind x "
+                "position class, format.",
+        "assumptions": ["a pipeline is included at most once (two stages scheduling the same graph object have no stated semantics)"],
+        "parts": [
+            {"name": "breaks", "test": "TestBreaks", "checks": {Q: 3200, T: 48000}, "shards": {Q: 16, T: 16}, "timeout": {Q: 500, T: 3000}, "shrinktime": "40s"},
         ],
     },
 }
